@@ -124,6 +124,9 @@ class Problem:
         names = param_names(spec)
         if x0 == 'spec':
             x0 = None if spec['x0'] is None else dict(zip(names, spec['x0']))
+            # explicit start values may list the parameters in another order than `bounds`
+            if x0 is not None and spec.get('x0_rev'):
+                x0 = dict(reversed(list(x0.items())))
         return self.pg.Inference(
             bounds=dict(self.bounds), x0=x0, coal=self.coal, loss=self.loss, observation=self.obs,
             resample=lambda o, rng: o * rng.uniform(0.8, 1.25, size=len(o)),
@@ -146,7 +149,7 @@ def rand_spec(rng, quick):
     if n == 2 and loss != 'sq-th' and problem in ('two-epoch', 'mig'):
         n = 3                                                              # one SFS bin cannot identify two parameters
     x0 = None if rng.random() < 0.4 else [round(rng.uniform(lo, hi), 3) for lo, hi in nb]
-    return dict(problem=problem, n=n, t=rng.choice([0.25, 0.5, 1.0]), true=true, bounds=nb, x0=x0, loss=loss,
+    return dict(x0_rev=rng.random() < 0.5, problem=problem, n=n, t=rng.choice([0.25, 0.5, 1.0]), true=true, bounds=nb, x0=x0, loss=loss,
                 scale=rng.choice([1.0, 1.0, 10.0]) if loss == 'poisson' else 1.0,
                 n_runs=rng.choice([1, 2, 2, 3, 3, 4]), seed=rng.randint(0, 10 ** 6), cache=rng.random() < 0.6,
                 maxiter=rng.randint(2, 6 if quick else 8))
@@ -229,7 +232,7 @@ def g_run(R, P, spec):
     inf = run_logged(P.inference())
     nt = spec['n_runs'] >= 2
     p = {k: float(v) for k, v in inf.params_inferred.items()}
-    R.check(list(p) == param_names(spec), 'run:param-names', nt, expected=param_names(spec), observed=list(p))
+    R.check(sorted(p) == sorted(param_names(spec)), 'run:param-names', nt, expected=sorted(param_names(spec)), observed=sorted(p))
     inb = all(P.bounds[k][0] <= v <= P.bounds[k][1] for k, v in p.items())
     R.check(inb, 'run:within-bounds', nt, expected={k: list(b) for k, b in P.bounds.items()}, observed=p)
     lr = [float(x) for x in inf.loss_runs]
